@@ -30,7 +30,8 @@ class Budget(Exception):
 
 
 def run_shard(job):
-    pid, tier, idx, params, seed, known_ids = job
+    pid, tier, idx, params, seed, known_ids = job[:6]
+    spill = job[6] if len(job) > 6 else None
     t0 = time.time()
     out = dict(idx=idx, params=params, error=None)
     try:
@@ -45,6 +46,7 @@ def run_shard(job):
             opts.update(H.engine_opts(params, tier))
         max_seconds = opts.pop("max_seconds", 3000)
         eng = core.Engine(**opts)
+        eng.spill = spill
         funcs = set()
         state = dict(n=0)
 
@@ -103,7 +105,11 @@ def run_all(jobs, njobs, shard_timeout):
     """one forked process per shard (a crashed or hung worker cannot stall the run); at most njobs at a time"""
     from multiprocessing.connection import wait
 
+    import tempfile
+
     ctx = mp.get_context("fork")
+    spilldir = tempfile.mkdtemp(prefix="verif_spill_")
+    jobs = [tuple(j) + (os.path.join(spilldir, f"{j[2]}.jsonl"),) for j in jobs]
     pending = list(jobs)
     running = {}   # conn -> (proc, job, t0)
     results = []
@@ -130,8 +136,19 @@ def run_all(jobs, njobs, shard_timeout):
                 pr.kill()
                 running.pop(conn)
                 conn.close()
-                results.append(dict(idx=job[2], params=job[3], error=None, timeout=True, wall=now - t0, stats={}, violations=[], unknowns=[
-                    dict(label="shard timed out", reason=f"no result within {shard_timeout}s")], samples=[], reached=[], funcs=[], incomplete=True, known_seen={}))
+                found = []
+                try:
+                    found = [json.loads(ln) for ln in open(job[6])]
+                except OSError:
+                    pass
+                lc = {}
+                for v in found:
+                    lc[v["label"]] = lc.get(v["label"], 0) + 1
+                results.append(dict(idx=job[2], params=job[3], error=None, timeout=True, wall=now - t0, stats=dict(violated=len(found)), violations=found, unknowns=[
+                    dict(label="shard timed out", reason=f"no result within {shard_timeout}s")], samples=[], reached=[], funcs=[], incomplete=True, known_seen={}, label_counts=lc))
+    import shutil
+
+    shutil.rmtree(spilldir, ignore_errors=True)
     return results
 
 
